@@ -47,25 +47,59 @@ theorem absHead_snoc (t : Table) (s : StateId) (w : Bytes) (b : UInt8) :
 theorem ofBytes_snoc (n : Bytes) (b : UInt8) : NameHash.ofBytes (n ++ [b]) = NameHash.update (NameHash.ofBytes n) b := by
   simp [NameHash.ofBytes, List.foldl_append]
 
+/-- a lexer-side state of the tag head: the shadow of some `TagHead` state -/
+def lexSide (L : Labels) (S : SLabels) (s' : StateId) : Bool :=
+  (List.range L.length).any fun s => (L.at s).isSome && S.at s == s'
+
+/-- every state along the lexer-side path is the shadow of a `TagHead` state -/
+def PathImg (t : Table) (L : Labels) (S : SLabels) (s1 : StateId) (u : Bytes) : Prop :=
+  ∀ k, k ≤ u.length → ∃ s', absHead t s1 (u.take k) = some s' ∧ lexSide L S s' = true
+
+theorem lexSide_of {L : Labels} {S : SLabels} {j : StateId} {ph : Phase} (h : L.at j = some ph) : lexSide L S (S.at j) = true := by
+  simp only [lexSide, List.any_eq_true, List.mem_range, Bool.and_eq_true, beq_iff_eq]
+  refine ⟨j, ?_, by rw [h]; rfl, rfl⟩
+  simp only [Labels.at] at h
+  rcases Nat.lt_or_ge j L.length with h' | h'
+  · exact h'
+  · rw [List.getElem?_eq_none h'] at h; simp at h
+
+theorem PathImg_snoc {t : Table} {L : Labels} {S : SLabels} {s1 s' : StateId} {u : Bytes} {b : UInt8}
+    (h : PathImg t L S s1 u) (hs : absHead t s1 (u ++ [b]) = some s') (hl : lexSide L S s' = true) :
+    PathImg t L S s1 (u ++ [b]) := by
+  intro k hk
+  simp only [List.length_append, List.length_singleton] at hk
+  rcases Nat.lt_or_ge k (u.length + 1) with h' | h'
+  · have : (u ++ [b]).take k = u.take k := by
+      rw [List.take_append_of_le_length (by omega)]
+    rw [this]
+    exact h k (by omega)
+  · have hk' : k = u.length + 1 := by omega
+    subst hk'
+    have : (u ++ [b]).take (u.length + 1) = u ++ [b] := by
+      apply List.take_of_length_le; simp
+    rw [this]
+    exact ⟨s', hs, hl⟩
+
 /-- scanner registers as functions of the head `w` (phase `name`) -/
 structure ScanSem (p : Nat) (w : Bytes) (s : ScanRegs) : Prop where
   kind : s.isInEndTag = !headKind w
   hash : s.tagNameHash = NameHash.ofBytes (headName w)
   start : s.tagNameStart + (headName w).length = p + w.length
 
-structure HExtra (t : Table) (S : SLabels) (m : M κ) (p : Nat) (ph : Phase) (w : Bytes) : Prop where
-  path : ∃ s1', ltOf t (t.textState m.c.lastTextType) = some s1' ∧ absHead t s1' w.tail = some (S.at m.c.state)
+structure HExtra (t : Table) (L : Labels) (S : SLabels) (m : M κ) (p : Nat) (ph : Phase) (w : Bytes) : Prop where
+  path : ∃ s1', ltOf t (t.textState m.c.lastTextType) = some s1' ∧ absHead t s1' w.tail = some (S.at m.c.state) ∧
+    PathImg t L S s1' w.tail
   sem : ph = .name → ∀ s, m.r = .scanner s → ScanSem p w s
 
 /-- between state functions -/
 def HSem (t : Table) (L : Labels) (S : SLabels) (inp : Bytes) (m : M κ) : Prop :=
   ∀ p ph w, m.ts = some p → L.at m.c.state = some ph → shapeB ph w = true → p + w.length = m.c.nextPos →
-    w <+: inp.drop p → HExtra t S m p ph w
+    w <+: inp.drop p → HExtra t L S m p ph w
 
 /-- after the consume -/
 def HSemMid (t : Table) (L : Labels) (S : SLabels) (inp : Bytes) (m : M κ) : Prop :=
   ∀ p ph w, m.ts = some p → L.at m.c.state = some ph → shapeB ph w = true → p + w.length + 1 = m.c.nextPos →
-    w <+: inp.drop p → HExtra t S m p ph w
+    w <+: inp.drop p → HExtra t L S m p ph w
 
 /-! ### shapes -/
 
@@ -346,10 +380,11 @@ def LexFin (t : Table) (sfin : StateId) (term : UInt8) (K : Bool × Nat) (L0 : N
 bookmark, the lexer-side path over `H` ends in `sfin` whose arm on the terminator finishes the tag
 name; a pending aux-info request belongs to a start tag; an unhandled `RequestLexeme` was computed
 for this very tag and the simulator state it left. -/
-structure HeadDone (env : Env κ) (S : SLabels) (Pend : κ → Bool) (inp : Bytes) (m' : M κ) (bm : Bookmark) : Prop where
+structure HeadDone (env : Env κ) (L : Labels) (S : SLabels) (Pend : κ → Bool) (inp : Bytes) (m' : M κ) (bm : Bookmark) : Prop where
   ex : ∃ (H : Bytes) (term : UInt8) (s1' sfin : StateId),
     shapeB .name H = true ∧ (H ++ [term]) <+: inp.drop bm.pos ∧
     ltOf env.tbl (env.tbl.textState bm.textType) = some s1' ∧ absHead env.tbl s1' H.tail = some sfin ∧
+    PathImg env.tbl L S s1' H.tail ∧
     LexFin env.tbl sfin term (headKey H) bm.lastStartTagNameHash ∧
     (Pend m'.x.sink = true → headKind H = true) ∧
     (∀ k, bm.fd = .applyUnhandled (.requestLexeme k) →
@@ -361,7 +396,7 @@ def SemPost (env : Env κ) (L : Labels) (S : SLabels) (Pend : κ → Bool) (inp 
   match r.2 with
   | none => HSem env.tbl L S inp r.1
   | some (.endOfInput n) => last = false → ∀ data, HSem env.tbl L S (inp.drop n ++ data) r.1
-  | some (.directive d bm) => d = .lex ∧ HeadDone env S Pend inp r.1 bm
+  | some (.directive d bm) => d = .lex ∧ HeadDone env L S Pend inp r.1 bm
   | some (.err _) => True
 
 theorem HSem_of_none {t : Table} {L : Labels} {S : SLabels} {inp : Bytes} {m : M κ} (h : m.ts = none) :
@@ -573,10 +608,13 @@ theorem keep_sem {ph : Phase} {c : Common} {s : ScanRegs} {x : Ctx κ} {b : UInt
     rw [e1] at hl'
     obtain ⟨hstep, hname⟩ := e6 ph' hl'
     refine ⟨?_, fun hn s' hs'' => ?_⟩
-    · obtain ⟨s1', k1, k2⟩ := hold.path
-      refine ⟨s1', by rw [e3]; exact k1, ?_⟩
-      rw [tail_snoc (shape_ne_nil hs0), absHead_snoc, k2, e1]
-      exact e5
+    · obtain ⟨s1', k1, k2, k3⟩ := hold.path
+      have hnew : absHead env.tbl s1' (w ++ [b]).tail = some (S.at m'.c.state) := by
+        rw [tail_snoc (shape_ne_nil hs0), absHead_snoc, k2, e1]
+        exact e5
+      refine ⟨s1', by rw [e3]; exact k1, hnew, ?_⟩
+      rw [tail_snoc (shape_ne_nil hs0)] at hnew ⊢
+      exact PathImg_snoc k3 hnew (by rw [e1]; exact lexSide_of hl')
     · subst hn
       rw [e4] at hs''
       simp only [Regs.scanner.injEq] at hs''
@@ -727,7 +765,7 @@ theorem finish_sem (hlaw : PendLaw env.ops Pend) {ph : Phase} {c : Common} {s : 
       LexFin env.tbl (S.at c.state) b K L0)
     (d : Directive) (bm : Bookmark)
     (h : (runSeq env inp q (⟨c, .scanner s, x⟩ : M κ)).2.1 = some (.directive d bm)) :
-    d = .lex ∧ HeadDone env S Pend inp (runSeq env inp q (⟨c, .scanner s, x⟩ : M κ)).1 bm := by
+    d = .lex ∧ HeadDone env L S Pend inp (runSeq env inp q (⟨c, .scanner s, x⟩ : M κ)).1 bm := by
   obtain ⟨h1, h2⟩ := finish_runSeq_dir hf c s x d bm h
   rw [h2]
   refine ⟨(scanFinishTagName_dir (inp := inp) hlaw c s x d bm h1).1, ?_⟩
@@ -741,7 +779,7 @@ theorem finish_sem (hlaw : PendLaw env.ops Pend) {ph : Phase} {c : Common} {s : 
   subst hl0
   have hold := hsem bm.pos .name w (by simp [M.ts, f1]) hl hs0 hlen0 hpre0
   obtain ⟨k1, k2, k3⟩ := hold.sem rfl s rfl
-  obtain ⟨s1', p1, p2⟩ := hold.path
+  obtain ⟨s1', p1, p2, p3⟩ := hold.path
   have hp1 : c.pos + 1 = c.nextPos := by simp [Common.pos]; omega
   have hsn : (w ++ [b]) <+: inp.drop bm.pos := by
     apply prefix_snoc hpre0
@@ -751,7 +789,7 @@ theorem finish_sem (hlaw : PendLaw env.ops Pend) {ph : Phase} {c : Common} {s : 
   have hkey : headKey w = (!s.isInEndTag, s.tagNameHash) := by
     simp only [headKey, k2]
     rw [k1]; simp
-  refine ⟨⟨w, b, s1', S.at c.state, hs0, hsn, by rw [f2]; exact p1, p2, ?_, ?_, ?_⟩, ⟨s', f8, f10, by rw [f12]; exact hcs, f11⟩⟩
+  refine ⟨⟨w, b, s1', S.at c.state, hs0, hsn, by rw [f2]; exact p1, p2, p3, ?_, ?_, ?_⟩, ⟨s', f8, f10, by rw [f12]; exact hcs, f11⟩⟩
   · apply hfin _ _ hkey
     intro hk
     rw [f6]
@@ -847,7 +885,11 @@ theorem mark_sem (hlaw : PendLaw env.ops Pend) {sd : StateDef} {c : Common} {s :
           subst hl'
           have hw := shape_lt hs'
           subst hw
-          refine ⟨⟨S.at j, by rw [hlt']; exact hlt, by rw [hstate]; rfl⟩, fun hn => by cases hn⟩
+          refine ⟨⟨S.at j, by rw [hlt']; exact hlt, by rw [hstate]; rfl, ?_⟩, fun hn => by cases hn⟩
+          intro k hk
+          simp only [List.tail_cons, List.length_nil, Nat.le_zero_eq] at hk
+          subst hk
+          exact ⟨S.at j, rfl, lexSide_of hm2.2⟩
 
 /-- **an arm selected by a byte** -/
 theorem normal_sem (hlaw : PendLaw env.ops Pend) {sd : StateDef} {m : M κ} {arm : Arm} {b : UInt8}
@@ -1102,8 +1144,8 @@ theorem HSemMid_congr {m m' : M κ} (hs : m.isScanner = true) (hs' : m'.isScanne
   simp only at hl hlen
   have := h p ph w (by simp only [M.ts]; rw [← k4]; exact hp) (by simp only; rw [← k1]; exact hl) hsh
     (by simp only; rw [← k2]; exact hlen) hpre
-  obtain ⟨⟨s1', p1, p2⟩, hsem⟩ := this
-  refine ⟨⟨s1', by simp only at p1 ⊢; rw [k3]; exact p1, by simp only at p2 ⊢; rw [k1]; exact p2⟩, fun hn s0 hs0 => ?_⟩
+  obtain ⟨⟨s1', p1, p2, p3⟩, hsem⟩ := this
+  refine ⟨⟨s1', by simp only at p1 ⊢; rw [k3]; exact p1, by simp only at p2 ⊢; rw [k1]; exact p2, p3⟩, fun hn s0 hs0 => ?_⟩
   simp only [Regs.scanner.injEq] at hs0
   subst hs0
   obtain ⟨a1, a2, a3⟩ := hsem hn s rfl
@@ -1559,8 +1601,8 @@ theorem stateFn_sem (hlaw : PendLaw env.ops Pend) (hhead : HeadOk env.tbl L = tr
         rw [p2] at hl
         have hmm := hsame ph hl
         have := hsem p' ph w hp' hl hsh (by rw [← p3]; omega) hpre
-        obtain ⟨⟨s1', q1, q2⟩, q3⟩ := this
-        refine ⟨⟨s1', by rw [← hmm] at q1; exact q1, by rw [← hmm] at q2; exact q2⟩, fun hn s0 hs0 => ?_⟩
+        obtain ⟨⟨s1', q1, q2, q2'⟩, q3⟩ := this
+        refine ⟨⟨s1', by rw [← hmm] at q1; exact q1, by rw [← hmm] at q2; exact q2, q2'⟩, fun hn s0 hs0 => ?_⟩
         rw [← hmm] at q3
         exact q3 hn s0 hs0
       rw [← p4]
@@ -1622,6 +1664,55 @@ theorem stateFn_sem (hlaw : PendLaw env.ops Pend) (hhead : HeadOk env.tbl L = tr
           rw [hts] at hp'
           obtain ⟨ph, w, hl, hs, hlen, hpre⟩ := h.head p' hp'
           exact ⟨ph, w, by rw [p2]; exact hl, hs, by simp only; omega, hpre⟩
+
+
+/-! ### the parsing loop of a scanner machine -/
+
+/-- all invariants of a scanner machine between state functions -/
+structure ScanAll (env : Env κ) (L : Labels) (TT : TLabels) (P : PLabels) (S : SLabels) (Pend : κ → Bool)
+    (inp : Bytes) (m : M κ) : Prop where
+  head : HInv env.tbl L inp m
+  lab : LabInv TT P Pend m
+  sem : HSem env.tbl L S inp m
+
+/-- the tables satisfy all side-conditions of the scanner ⇄ lexer hand-over -/
+structure RelexSide (t : Table) (L : Labels) (TT : TLabels) (P : PLabels) (S : SLabels) : Prop where
+  head : HeadOk t L = true
+  relex : RelexOk t L TT S = true
+  tt : TextTypeOk t TT = true
+  phase : PhaseOk t P = true
+
+theorem runLoop_scanAll (hlaw : PendLaw env.ops Pend) (hside : RelexSide env.tbl L TT P S) (n : Nat) (m : M κ)
+    (h : ScanAll env L TT P S Pend inp m) :
+    match (runLoop env inp n m).2 with
+    | .endOfInput k => HeldOk env.tbl inp k ∧ (runLoop env inp n m).1.isScanner = true ∧
+        (m.c.isLast = false → ∀ data, ScanAll env L TT P S Pend (inp.drop k ++ data) (runLoop env inp n m).1)
+    | .directive d bm => d = .lex ∧ HeadDone env L S Pend inp (runLoop env inp n m).1 bm
+    | .err _ => True := by
+  induction n generalizing m with
+  | zero => simp [runLoop]
+  | succ n ih =>
+    have h1 := scan_stateFn_post (env := env) (inp := inp) rfl hside.head m h.head
+    have h2 := stateFn_lab (inp := inp) hlaw hside.tt hside.phase m h.lab
+    have h3 := stateFn_sem (inp := inp) hlaw hside.head hside.relex hside.tt hside.phase m h.head h.lab h.sem
+    simp only [runLoop]
+    cases hs : (stateFn env inp m).2 with
+    | none =>
+      dsimp only
+      simp only [ScanStepPost, LabPost, SemPost, hs] at h1 h2 h3
+      have := ih (stateFn env inp m).1 ⟨h1.1, h2, h3⟩
+      rw [h1.2] at this
+      exact this
+    | some sig =>
+      dsimp only
+      cases sig with
+      | err e => trivial
+      | endOfInput k =>
+        simp only [ScanStepPost, LabPost, SemPost, hs] at h1 h2 h3
+        exact ⟨h1.1, h1.2.2.2, fun hl data => ⟨h1.2.1 hl data, h2, h3 hl data⟩⟩
+      | directive d bm =>
+        simp only [SemPost, hs] at h3
+        exact h3
 
 end
 end
